@@ -4,7 +4,7 @@ workloads + (where a model prediction exists) kernel-evaluated comparison with t
 import collections, json, os, re
 from . import common as C
 
-FAMILIES = {"C14": ["hub", "errors"], "C01": ["conc", "closures"], "C02": ["nest", "closures"], "C09": ["values"], "C10": ["errors"], "C11": ["closures", "hub"],
+FAMILIES = {"C14": ["hub", "errors"], "C01": ["conc", "closures", "framing"], "C02": ["nest", "closures"], "C09": ["values"], "C10": ["errors"], "C11": ["closures", "hub"],
             "C13": ["hub", "relay", "nestedlink"], "C17": ["wire"]}
 
 
@@ -83,7 +83,7 @@ def mon_c02(rec):
     if rec.get("hang"):
         out.append("deadlock / starvation: %s" % (rec.get("notes") or ["calls did not complete"]))
     if rec["family"] == "closures":
-        return out + [v for v in mon_c11(rec) if "stalled" in v or "wedged" in v or "cancelled while" in v]
+        return out + [v for v in mon_c11(rec) if "stalled" in v or "wedged" in v or "cancelled while" in v or "in flight" in v or "ended" in v]
     for c in rec["calls"] or []:
         if c["m"] == "Nest":
             if c["err"] != "" or c["ret"] != c["arg"]:
@@ -163,6 +163,12 @@ def mon_c10(rec):
             continue    # outside the property's premise (no non-blank character)
         else:
             want = msg
+        if c["m"] == "IterNilErr":
+            # pages: 0 -> (["a"], nil); 1 -> (nil, error msg) ; 2 -> (nil, nil): the callee concatenates what it received
+            want_ret = '0:["a"]/;1:null/%s;2:null/' % ("" if want == "<nil>" else want)
+            if c["ret"] != want_ret or c["err"] != "<nil>":
+                out.append("closure returning a nil value together with the error %r: the callee received %r, expected %r" % (msg, c["ret"], want_ret))
+            continue
         if c["m"] == "IterValErr":
             # the callee concatenates "<value>/<error text it received>"
             want_ret = "val/" + ("" if want == "<nil>" else want)
@@ -334,7 +340,7 @@ def mon_c17(rec):
     if rec["family"] == "foreign":
         want = {901: ("c1", 5, ""), 902: ("c2", "hi", ""), 903: ("c3", None, ""), 904: ("c4", None, "nope"), 905: ("c5", 2905, ""),
                 906: ("c6", 3, ""), 907: ("c7", 0, ""), 908: ("c8", "", ""), 909: ("c9", None, ""), 910: ("c10", "hello x", ""), 911: ("s1", 6, ""), 912: ("s2", "x", ""), 913: ("s3", None, ""),
-                915: ("s5", 7, ""), 917: ("s7", 0, "")}
+                915: ("s5", 7, ""), 917: ("s7", 0, ""), 920: ("s10", 8, "")}
         for c in rec["foreign"] or []:
             if c.get("extra") == "none-expected":
                 if c["ret"]:
@@ -450,6 +456,19 @@ def mon_linkend(rec, pid="C03"):
     return out
 
 
+def mon_framing(rec):
+    """family framing: the same traffic over the message API, split stream envelopes, one combined envelope"""
+    out = []
+    for n in rec.get("notes") or []:
+        out.append("%s: %s" % (rec["config"], n))
+    want = {"PeerRequest1": ("5", ""), "NodeCall": ('"x"', ""), "PeerRequest2": ("null", "")}
+    for c in rec["calls"] or []:
+        w = want.get(c["m"])
+        if w and (c["ret"], c["err"]) != w:
+            out.append("%s: %s returned (%s, %r), expected (%s, %r): every request and every response that arrives is delivered, however the peer frames them" % (rec["config"], c["m"], c["ret"], c["err"], w[0], w[1]))
+    return out
+
+
 def mon_relay(rec):
     """family relay (C13): a handler of link 0 relays over link 1 with its request's context; link 0 ends"""
     out = []
@@ -492,6 +511,23 @@ def mon_nestedlink(rec):
     return out
 
 
+def mon_closureend(rec):
+    """family closureend (C03): a closure invocation in flight when the link ends"""
+    out = []
+    for n in rec.get("notes") or []:
+        out.append("%s: %s" % (rec["config"], n))
+    seen = False
+    for e in rec.get("events") or []:
+        if e["kind"] == "ret" and e["m"] == "KeepAndCall" and e["tag"] == 790:
+            seen = True
+            if e.get("err", "") == "":
+                out.append("%s: a handler's invocation of a peer-provided closure was in flight when the link ended: it returned (%s, nil) - a nil error although no response was received" % (rec["config"], e.get("data")))
+    for c in rec["calls"] or []:
+        if c["m"] == "CallWhoseClosureIsRunning" and (not c.get("done") or c["err"] == ""):
+            out.append("%s: the call in flight when the link ended returned (%s, %r)" % (rec["config"], c.get("ret"), c["err"]))
+    return out
+
+
 def mon_enumrace(rec):
     """family enumrace (C14): nothing is enumerated after its disconnect notification"""
     out = []
@@ -527,6 +563,18 @@ def mon_c04_sys(rec):
             want = "42" if m == "Probe" else "p/"
             if c["err"] != "" or c["ret"] != want:
                 out.append("the link is not healthy %s: a later %s call from %s returned (%s, %r)" % (c.get("extra"), "closure-carrying" if m == "ProbeClosure" else "plain", c["from"], c["ret"], c["err"]))
+        elif m == "CancelledWithCause":
+            if c["err"] != "context canceled" or c["ret"] != "0":
+                out.append("a call whose context was cancelled with a cause returned (%s, %r), expected the context's error (0, 'context canceled')" % (c["ret"], c["err"]))
+        elif m == "TimedOutWithCause":
+            if c["err"] != "context deadline exceeded" or c["ret"] != "0":
+                out.append("a call whose context timed out with a cause returned (%s, %r), expected the context's error (0, 'context deadline exceeded')" % (c["ret"], c["err"]))
+        elif m == "CancelledSibling":
+            if c["err"] != "context canceled":
+                out.append("a cancelled closure-carrying call returned (%s, %r)" % (c["ret"], c["err"]))
+        elif m == "SurvivingSibling":
+            if c["err"] != "" or c["ret"] != "951":
+                out.append("cancelling one of two calls that pass closures made by the same function literal affected the other one: it returned (%s, %r), expected (951, '')" % (c["ret"], c["err"]))
         elif m == "IterCtx":
             if c["err"] != "" or c["ret"] != "0/context canceled;2/":
                 out.append("a closure invocation whose own context was cancelled while the closure ran, then a second invocation: the handler observed %r (error %r), expected '0/context canceled;2/'" % (c["ret"], c["err"]))
@@ -627,12 +675,32 @@ def check(res, tier, seed):
                           dict(kind="sys", output=out[-3000:], last=recs[-1] if recs else None))
         mon = MONITORS[pid]
         for r in recs:
-            vs = (mon_c11 if (pid == "C01" and r["family"] == "closures") else (lambda rr: [v for v in mon_c13(rr) if "closure" in v]) if (pid == "C11" and r["family"] == "hub") else mon_relay if r["family"] == "relay" else mon_nestedlink if r["family"] == "nestedlink" else mon)(r)
+            vs = (mon_c11 if (pid == "C01" and r["family"] == "closures") else mon_framing if r["family"] == "framing" else (lambda rr: [v for v in mon_c13(rr) if "closure" in v]) if (pid == "C11" and r["family"] == "hub") else mon_relay if r["family"] == "relay" else mon_nestedlink if r["family"] == "nestedlink" else mon)(r)
             if vs:
                 hits += 1
                 res.violation("sys-monitor:" + re.sub(r"\d+", "N", vs[0])[:50], "implementation violates %s: %s" % (pid, vs[0]),
                               dict(kind="sys", family=r["family"], config=r["config"], seed=r["seed"], all=vs[:10],
                                    calls=(r.get("calls") or [])[:30]))
+    if pid == "C09":
+        # the result of a call that did get its response survives a late cancellation of the call's context
+        # (window-level: the context is cancelled after the waiter has taken the response, before the caller decodes it)
+        calls = [dict(ctx=1, nres=2, closure=False, arg=10)]
+        pre = [dict(run="setup"), dict(env="start", i=0), dict(run="call:0"), dict(run="waiter:0"), dict(env="deliver-res", id=0, v=100),
+               dict(run="pub:0"), dict(run="pub:0")]
+        cases = [dict(calls=calls, choices=pre + [dict(run="waiter:0"), dict(run="waiter:0"), dict(env="cancel", n=1), dict(run="call:0"), dict(run="call:0")]),
+                 dict(calls=calls, choices=pre + [dict(run="waiter:0"), dict(env="cancel", n=1), dict(run="waiter:0"), dict(run="call:0"), dict(run="call:0")])]
+        erecs, erc, eout = C.run_job(binary, wd, "latecancel", dict(family="ep-replay", seed=seed, cases=cases), timeout=300)
+        for r in erecs:
+            if "trace" not in r:
+                continue
+            rets = [e for e in (r["trace"][-1]["obs"]["events"] if r["trace"] else []) if e["k"] == "ret" and e["i"] == 0]
+            if not rets:
+                hits += 1
+                res.violation("late-cancel", "a call whose response had been delivered did not return (context cancelled after the waiter took the response)", dict(kind="ep", calls=r["calls"], case=r.get("trace", [])[-1:]))
+            elif rets[0].get("e", "") == "" and rets[0].get("v") != 100:
+                hits += 1
+                res.violation("late-cancel", "implementation violates C09: the response (value 100) had been taken by the call's waiter when the call's context was cancelled; the call returned (%s, nil): a nil error with another value than the handler's" % rets[0].get("v"),
+                              dict(kind="ep", calls=r["calls"], choices=[st["c"] for st in r["trace"]]))
     model = MODEL_CHECKS.get(pid)
     nmodel = 0
     if model:
